@@ -97,6 +97,7 @@ NatOf(m) == NatOfFrom(m, 1)          \* only for small values (native TLC intege
                                        widened again (supplied by the reference compiler)
            [k |-> "bytes", data] | [k |-> "str"] | [k |-> "none"] | [k |-> "pybool", b]
            [k |-> "list", items]            list or tuple
+           [k |-> "dict", keys, items]      dict initializer of a struct: keys = field numbers
            [k |-> "intobj", v]              an object with __int__ only
            [k |-> "cint", ct, c]            <cdata 'int'>, 'char', '_Bool' (ffi.cast)
            [k |-> "cfloat", ct, d, f, fd]   <cdata 'float'/'double'>
@@ -206,6 +207,13 @@ ConvStruct(t, v) ==
                 IF ~r.ok THEN r
                 ELSE Ok(TLCEval([i \in 1..Len(t.fields) |->
                                    IF i <= Len(r.c) THEN r.c[i] ELSE ZeroC(t.fields[i])]))
+      [] v.k = "dict" ->         \* keys = field numbers, in the dict's order; unnamed fields are zero
+           LET r == ConvSeq(TLCEval([j \in 1..Len(v.keys) |-> t.fields[v.keys[j]]]), v.items, 1) IN
+           IF ~r.ok THEN r
+           ELSE Ok(TLCEval([i \in 1..Len(t.fields) |->
+                              IF \E j \in 1..Len(v.keys) : v.keys[j] = i
+                              THEN r.c[CHOOSE j \in 1..Len(v.keys) : v.keys[j] = i /\ \A j2 \in (j + 1)..Len(v.keys) : v.keys[j2] # i]
+                              ELSE ZeroC(t.fields[i])]))
       [] OTHER -> Err("TypeError")
 
 \* convert_from_object: a value stored into a C object of type t (array item, struct
@@ -486,4 +494,32 @@ Want(c) ==
          THEN LET o == ConvRes(c.rt, c.onv) IN IF o.ok THEN <<ImgOf(c.rt, o.c)>> ELSE <<>>
     ELSE <<ErrBytes(c)>>
 
+
+-----------------------------------------------------------------------------
+(* 7. storing a struct given by value, as the code does it (argument slot of cdata_call,
+      local variable of the generated _cffi_f_ wrapper, result buffer of a callback):
+      the destination holds garbage; [memset 0]; then the initializer is converted field by
+      field -- a cdata struct is copied whole, a list/tuple writes the leading fields, a dict
+      the named ones; a failing field stops the conversion (earlier fields are written).
+      zero = FALSE is the behaviour before the fixes 49ab91f / d72c0a3 / b07fef6. *)
+RECURSIVE FieldOff(_, _)
+FieldOff(t, i) == IF i = 1 THEN 0 ELSE FieldOff(t, i - 1) + SizeT(t.fields[i - 1])
+RECURSIVE StoreFields(_, _, _, _, _)
+\* idx[j] = field number receiving vs[j]; returns [ok, exc, b]
+StoreFields(b, t, idx, vs, j) ==
+    IF j > Len(vs) THEN [ok |-> TRUE, exc |-> "", b |-> b]
+    ELSE LET f == t.fields[idx[j]]
+             r == ConvertItem(f, vs[j])
+         IN IF ~r.ok THEN [ok |-> FALSE, exc |-> r.exc, b |-> b]
+            ELSE StoreFields(Splice(b, FieldOff(t, idx[j]), ImgOf(f, r.c)), t, idx, vs, j + 1)
+StructStore(b, t, v, zero) ==
+    LET b0 == IF zero THEN Splice(b, 0, Zeros(SizeT(t))) ELSE b IN
+    CASE v.k = "cstruct" ->
+           IF v.ct # t THEN [ok |-> FALSE, exc |-> "TypeError", b |-> b0]
+           ELSE StoreFields(b0, t, TLCEval([j \in 1..Len(t.fields) |-> j]), v.vals, 1)
+      [] v.k = "list" ->
+           IF Len(v.items) > Len(t.fields) THEN [ok |-> FALSE, exc |-> "ValueError", b |-> b0]
+           ELSE StoreFields(b0, t, TLCEval([j \in 1..Len(v.items) |-> j]), v.items, 1)
+      [] v.k = "dict" -> StoreFields(b0, t, v.keys, v.items, 1)
+      [] OTHER -> [ok |-> FALSE, exc |-> "TypeError", b |-> b0]
 =============================================================================
